@@ -246,7 +246,7 @@ def run(ctx):
     for b in deep_bodies(F, ex):
         for bb, t in b.calls():
             if callee_is(t, 'server::Serve::serve'):
-                rs = P.root(P.operand(b, t['args'][1], at=bb))
+                rs = P.root(P.operand(b, t['args'][1], at=bb), through_params=True, callers={x.id for x in deep_bodies(F, ex)})
                 ok = bool(rs) and all(r == ('param', ex.id, 1) and P.fpath(p) == ('request', 'context') for r, p in rs)
                 R.ob('C07.server', ('InFlightRequest::execute', 'handler observes the request context'), ok,
                      'the handler receives the tracked request\'s context (deadline included) untouched', [b.loc(t)])
